@@ -166,3 +166,8 @@ def num(x: Any) -> Any:
     if isinstance(x, float) and x == x and x not in (float("inf"), float("-inf")) and x == int(x):
         return int(x)
     return x
+
+
+# set by the shard while a case runs with a fractional time unit (files scaled by a dyadic constant, loaded with
+# HTA_DISABLE_NS_ROUNDING=1): the reference model then keeps the file's fractional times instead of rounding them inward
+FLOAT_MODE = False
